@@ -3,10 +3,10 @@
 package main
 
 import (
-	"strings"
 	"context"
 	"fmt"
 	"runtime/debug"
+	"strings"
 	"time"
 
 	log "go.arcalot.io/log/v2"
@@ -33,6 +33,10 @@ func (nullWriter) Close() error              { return nil }
 // must not change what a run computes.
 var slowLogMs int
 
+// logAllOutputs: the configuration asks for every step output to be logged (config.LoggedOutputConfigs), the log itself goes
+// nowhere.  Logging an output must not change it.
+var logAllOutputs bool
+
 type slowWriter struct{}
 
 func (slowWriter) Write(m log.Message) error {
@@ -47,6 +51,9 @@ func (slowWriter) Close() error { return nil }
 func quietLogger() log.Logger {
 	if slowLogMs > 0 {
 		return log.NewLogger(log.LevelWarning, slowWriter{})
+	}
+	if logAllOutputs {
+		return log.NewLogger(log.LevelWarning, nullWriter{})
 	}
 	return log.NewLogger(log.LevelError, nullWriter{})
 }
@@ -64,7 +71,7 @@ func engineConfig() *config.Config {
 		LocalDeployers: localDeployers,
 		Log:            log.Config{Level: log.LevelError, Destination: log.DestinationStdout},
 	}
-	if slowLogMs > 0 {
+	if slowLogMs > 0 || logAllOutputs {
 		cfg.LoggedOutputConfigs = map[string]*config.StepOutputLogConfig{}
 		for _, id := range []string{"success", "error", "alt", "started", "resolved", "output", "result"} {
 			cfg.LoggedOutputConfigs[id] = &config.StepOutputLogConfig{LogLevel: log.LevelWarning}
@@ -84,7 +91,9 @@ type wfFactory struct {
 	cfg *config.Config
 }
 
-func (f *wfFactory) yaml() (workflow.YAMLConverter, error) { return workflow.NewYAMLConverter(f.reg), nil }
+func (f *wfFactory) yaml() (workflow.YAMLConverter, error) {
+	return workflow.NewYAMLConverter(f.reg), nil
+}
 func (f *wfFactory) exec(l log.Logger) (workflow.Executor, error) {
 	return workflow.NewExecutor(l, f.cfg, f.reg, builtinfunctions.GetFunctions())
 }
